@@ -68,7 +68,7 @@ def make_ctx():
         return ",".join(log)
 
     return {
-        "cs": "S", "cn": 3, "cl": ["p", "q", "r"], "ce": [], "cd": {"k": "v"}, "ct": (("a", 1), ("b", 2)),
+        "cs": "S", "cn": 3, "cx0": "X0", "cx1": "X1", "cl": ["p", "q", "r"], "ce": [], "cd": {"k": "v"}, "ct": (("a", 1), ("b", 2)),
         "gen": gen, "rec": rec, "boom": boom, "showlog": showlog, "Boom": Boom, "Boom2": Boom2,
         "deco": deco, "deco2": deco2, "ident": lambda z: z,
         "fa": lambda s: "a(" + str(s) + ")", "fb": fb, "up": lambda s: str(s).upper(),
